@@ -223,6 +223,24 @@ def curPath (f : Forest) (a b : Cst) : Except Err (List Label) :=
 
 abbrev Res := List ((Cst × Cst) × List Label)
 
+/-- The body of `for eq in cur_path: if eq[0] == EQ_COMB: explain(a1, b1); explain(a2, b2)`
+with `g` the recursive call. -/
+def explainArgs (g : Cst → Cst → Res → Except Err Res) (r : Res) (l : Label) : Except Err Res :=
+  match l with
+  | .const _ _ => .ok r
+  | .comb e1 e2 =>
+    match g e1.a1 e2.a1 r with
+    | .error e => .error e
+    | .ok r1 => g e1.a2 e2.a2 r1
+
+/-- `for eq in cur_path: ...` -/
+def explainPath (g : Cst → Cst → Res → Except Err Res) : List Label → Res → Except Err Res
+  | [], r => .ok r
+  | l :: ls, r =>
+    match explainArgs g r l with
+    | .error e => .error e
+    | .ok r1 => explainPath g ls r1
+
 /-- `explain(s, t, res=res)`; the first argument bounds the recursion depth. -/
 def explain (f : Forest) : Nat → Cst → Cst → Res → Except Err Res
   | 0, _, _, _ => .error .fuel
@@ -231,14 +249,7 @@ def explain (f : Forest) : Nat → Cst → Cst → Res → Except Err Res
     match curPath f a b with
     | .error e => .error e
     | .ok path =>
-      let rec' := path.foldlM (fun (r : Res) (l : Label) =>
-        match l with
-        | .const _ _ => Except.ok r
-        | .comb e1 e2 =>
-          match explain f n e1.a1 e2.a1 r with
-          | .error e => .error e
-          | .ok r1 => explain f n e1.a2 e2.a2 r1) res
-      match rec' with
+      match explainPath (explain f n) path res with
       | .error e => .error e
       | .ok r => .ok (aset r (a, b) path)
 
